@@ -3,6 +3,8 @@ AsyncListener.datagram_received with response datagrams over a small vocabulary 
 every lookup path, every record-update-listener call and every browser callback."""
 from __future__ import annotations
 
+import asyncio
+
 import random
 from typing import Any, Dict, List, Optional, Tuple
 
@@ -184,6 +186,7 @@ class Recorder:
         self.net.on_recv_hook = self._on_recv
         self.net.on_recv_done_hook = self._on_recv_done
         self._exc_seen = 0
+        self.sync_browsers: set = set()
         self.gone: Dict[int, Any] = {}
         self._in_recv = False
 
@@ -356,10 +359,13 @@ class Recorder:
                 self.ev('lexc', op='lrem', lid=lid, what=type(ex).__name__)
 
     # ------------------------------------------------------------ browsers
-    def start_browser(self, bid: int, types: List[str], oneshot: bool = False) -> None:
+    def start_browser(self, bid: int, types: List[str], oneshot: bool = False, sync: bool = False) -> None:
         from zeroconf import ServiceListener, ServiceStateChange
         from zeroconf.asyncio import AsyncServiceBrowser
         rec = self
+        if sync:
+            self.start_sync_browser(bid, types)
+            return
 
         class BL(ServiceListener):
             def _cb(self, kind: str, type_: str, name: str) -> None:
@@ -400,6 +406,52 @@ class Recorder:
             self.browsers[bid] = AsyncServiceBrowser(self.host.zc, list(types), listener=BL(), delay=self.sc.get('delay', 10000))
         self.ev('bstart_done', bid=bid)
 
+    def start_sync_browser(self, bid: int, types: List[str]) -> None:
+        """The thread-based ServiceBrowser of the synchronous API: events are handed to a dedicated thread through a queue.  The
+        hand-over is made a rendezvous (the loop waits until the thread has fired what was queued), so that the callbacks fall into
+        the virtual instant that caused them; queue, thread and firing code are the library's."""
+        import time as _time
+        from zeroconf import ServiceBrowser, ServiceListener
+        rec = self
+        cnt = {'put': 0, 'fired': 0}
+
+        class BL(ServiceListener):
+            def _cb(self, kind: str, type_: str, name: str) -> None:
+                rec.ev('cb', bid=bid, kind=kind, ty=NAME_ID.get(low(type_), 0), tyexact=type_ in types,
+                       alias=NAME_ID.get(low(name), 0), view=rec.view())
+                cnt['fired'] += 1
+
+            def add_service(self, zc: Any, type_: str, name: str) -> None:
+                self._cb('add', type_, name)
+
+            def remove_service(self, zc: Any, type_: str, name: str) -> None:
+                self._cb('rem', type_, name)
+
+            def update_service(self, zc: Any, type_: str, name: str) -> None:
+                self._cb('upd', type_, name)
+        now = self.net.now()
+        for t in types:
+            for r in self.host.zc.cache.entries_with_name(t):
+                if r.type == wire.T_PTR and r.is_expired(now):
+                    return
+        self.ev('bstart', bid=bid, types=[NAME_ID[low(t)] for t in types])
+        b = ServiceBrowser(self.host.zc, list(types), listener=BL(), delay=self.sc.get('delay', 10000))
+        orig_complete = b.async_update_records_complete
+
+        def complete() -> None:
+            cnt['put'] += len(b._pending_handlers)
+            orig_complete()
+            t_end = _time.time() + 10
+            while cnt['fired'] < cnt['put']:
+                if _time.time() > t_end:
+                    raise simnet.Runaway('the browser thread did not fire %d queued events within 10 s' % (cnt['put'] - cnt['fired']))
+                _time.sleep(0.0002)
+        b.async_update_records_complete = complete       # type: ignore[method-assign]
+        self.browsers[bid] = b
+        self.sync_browsers.add(bid)
+        # _async_start is scheduled with call_soon_threadsafe: run it now (the replay of the cache to the new listener)
+        self._pending_sync_start = True
+
     # ------------------------------------------------------------ main
     async def main(self) -> None:
         net = self.net
@@ -418,12 +470,20 @@ class Recorder:
             elif op in ('ladd', 'lrem'):
                 self.do_listener_action(st)
             elif op == 'bstart':
-                self.start_browser(st['bid'], st['types'], st.get('oneshot', False))
+                self.start_browser(st['bid'], st['types'], st.get('oneshot', False), st.get('sync', False))
+                if st.get('sync') and st['bid'] in self.browsers:
+                    # the start of a thread-based browser is scheduled on the loop (call_soon_threadsafe): let it run now
+                    for _ in range(3):
+                        await asyncio.sleep(0)
+                    self.ev('bstart_done', bid=st['bid'])
             elif op == 'bcancel':
                 b = self.browsers.pop(st['bid'], None)
                 if b is not None:
                     self.ev('bcancel', bid=st['bid'])
-                    await b.async_cancel()
+                    if st['bid'] in self.sync_browsers:
+                        await self.cancel_sync(b)
+                    else:
+                        await b.async_cancel()
             elif op == 'snap':
                 pass
             else:
@@ -431,9 +491,20 @@ class Recorder:
             if st.get('snap', True):
                 self.ev('snap', paths=self.snapshot())
         self.ev('end')
-        for b in list(self.browsers.values()):
-            await simnet.quiet(b.async_cancel())
+        for bid, b in list(self.browsers.items()):
+            if bid in self.sync_browsers:
+                await simnet.quiet(self.cancel_sync(b))
+            else:
+                await simnet.quiet(b.async_cancel())
         await simnet.quiet(self.host.aiozc.async_close())
+
+    async def cancel_sync(self, b: Any) -> None:
+        # ServiceBrowser.cancel() joins the thread and must not be called from the loop thread: do its three steps here
+        b.queue.put(None)
+        b._async_cancel()
+        for _ in range(2):
+            await asyncio.sleep(0)
+        b.join(5)
 
     def run(self) -> dict:
         self.net.run(self.main(), limit_ms=self.sc.get('limit_ms', 48 * 3600 * 1000))
@@ -495,7 +566,10 @@ def gen_scenario(rng: random.Random, sid: str, n_dgrams: int, with_dups: bool = 
         steps.append({'op': 'at', 't': t})
         if browsers and (len(live_b) < browsers) and rng.random() < 0.25:
             types = [T1] if rng.random() < 0.6 else ([T2] if rng.random() < 0.5 else [T1, T2])
-            steps.append({'op': 'bstart', 'bid': next_bid, 'types': types, 'guard': True, 'oneshot': rng.random() < 0.3})
+            bst = {'op': 'bstart', 'bid': next_bid, 'types': types, 'guard': True, 'oneshot': rng.random() < 0.3}
+            if not bst['oneshot'] and rng.random() < 0.25:
+                bst['sync'] = True          # the thread-based ServiceBrowser of the synchronous API
+            steps.append(bst)
             live_b.append(next_bid)
             next_bid += 1
         elif live_b and rng.random() < 0.04:
